@@ -141,3 +141,24 @@ M("c06-dpl-len", "C06", "flexstack/geonet/location_table.py",
 M("c06-gac-rhl-revert", "C06", "flexstack/geonet/router.py", "            if new_rhl <= 0:\n                # Step 10a(i)", "            if new_rhl == 0:\n                # Step 10a(i)", "revert of the GAC RHL fix")
 M("c06-cbf-expiry-keep", "C06", "flexstack/geonet/router.py",
   "            del self._cbf_buffer[cbf_key]\n        try:\n            if self.link_layer:\n                self.link_layer.send(full_packet)", "        try:\n            if self.link_layer:\n                self.link_layer.send(full_packet)\n                self.link_layer.send(full_packet)", "CBF expiry sends the copy twice")
+
+# ---------------------------------------------------------------- C12
+M("c12-add-ungated", "C12", "flexstack/facilities/local_dynamic_map/if_ldm_3.py",
+  "        if data_provider.application_id in self.ldm_service.get_data_provider_its_aid():\n            data_object_id = self.ldm_service.add_provider_data(", "        if True:\n            data_object_id = self.ldm_service.add_provider_data(", "add accepted from unregistered providers")
+M("c12-id-reuse", "C12", "flexstack/facilities/local_dynamic_map/dictionary_database.py",
+  "            index = self._next_id\n", "            index = len(self.database)\n", "identifier = current number of objects (reused after a delete)")
+M("c12-validity-unit", "C12", "flexstack/facilities/local_dynamic_map/ldm_maintenance.py",
+  "TimestampIts((data_container[\"timeValidity\"]*1000) + data_container[\"timestamp\"])", "TimestampIts((data_container[\"timeValidity\"]*100) + data_container[\"timestamp\"])", "validity taken in 1/10 s")
+M("c12-query-ungated", "C12", "flexstack/facilities/local_dynamic_map/if_ldm_4.py",
+  "        if (\n            data_request.application_id\n            not in self.ldm_service.get_data_consumer_its_aid()\n        ):\n            return RequestDataObjectsResp(\n                data_request.application_id, (), RequestedDataObjectsResult.INVALID_ITSA_ID\n            )",
+  "        if False:\n            return RequestDataObjectsResp(\n                data_request.application_id, (), RequestedDataObjectsResult.INVALID_ITSA_ID\n            )", "requests of unregistered consumers answered")
+M("c12-update-location", "C12", "flexstack/facilities/local_dynamic_map/if_ldm_3.py",
+  "                updated[\"dataObject\"] = data_provider.data_object\n", "                updated[\"dataObject\"] = data_provider.data_object\n                updated[\"timestamp\"] = data_provider.time_stamp.timestamp_its\n", "update also replaces the timestamp")
+M("c12-remove-by-app", "C12", "flexstack/facilities/local_dynamic_map/dictionary_database.py",
+  "                if value == data_object:\n                    del self.database[key]\n                    return True", "                if value[\"application_id\"] == data_object[\"application_id\"]:\n                    del self.database[key]\n                    return True", "remove deletes the first object of the same application")
+M("c12-never-expire", "C12", "flexstack/facilities/local_dynamic_map/ldm_maintenance.py",
+  "< TimestampIts.initialize_with_utc_timestamp_seconds(int(TimeService.time())):", "> TimestampIts.initialize_with_utc_timestamp_seconds(int(TimeService.time())):", "expiry comparison reversed")
+M("c12-dereg-all", "C12", "flexstack/facilities/local_dynamic_map/ldm_service.py",
+  "            self.data_consumer_its_aid.discard(its_aid)", "            self.data_consumer_its_aid.discard(its_aid)\n            self.data_provider_its_aid.discard(its_aid)", "deregistering a consumer also deregisters the provider with the same id")
+M("c12-delete-revert", "C12", "flexstack/facilities/local_dynamic_map/if_ldm_3.py",
+  "            if stored is not None:\n                self.ldm_service.ldm_maintenance.del_provider_data(stored)", "            self.ldm_service.del_provider_data(data_provider.data_object_id)", "revert of the delete fix")
